@@ -10,6 +10,7 @@ import (
 	"sort"
 	"strings"
 	"time"
+	"unicode/utf8"
 
 	"github.com/confluentinc/confluent-kafka-go/kafka"
 
@@ -19,7 +20,7 @@ import (
 	"fbverif/sx"
 )
 
-// producer case := (1 cfg_topic preq) | (2 cfg_topic ereq)
+// producer case := (1 cfg_topic preq) | (2 cfg_topic ereq) | (3 cfg_topic ((1 preq) | (2 ereq) ...)) a sequence on one instance
 //   preq := (0 topic msg) *SimpleProduceRequest | (1 topic msg) other ProduceRequest implementation | (2 k) wrong type
 //   ereq := (0 form recovery payload errk) | (1 k) wrong type
 //   payload := (0 json) | (1 0) unsupported type | (1 1 str) unsupported value | (1 2) failing Marshaler
@@ -166,8 +167,27 @@ func genErrk(r *sx.Rng, depth int) sx.Tree {
 	}
 }
 
-// GenProd generates one producer / error-report case.
+// GenProd generates one producer / error-report case: a single call or a sequence of calls on one instance.
 func GenProd(r *sx.Rng, idx int) sx.Tree {
+	if r.Chance(55) {
+		n := int(r.Range(1, 6))
+		ct := genTopic(r, 6)
+		calls := []sx.Tree{}
+		reportsOnly := r.Chance(35)
+		for i := 0; i < n; i++ {
+			one := genProdOne(r)
+			if reportsOnly && one.At(0).Int() == 1 {
+				i--
+				continue
+			}
+			calls = append(calls, sx.T(one.At(0), one.At(2)))
+		}
+		return sx.T(sx.L(3), ct, sx.T(calls...))
+	}
+	return genProdOne(r)
+}
+
+func genProdOne(r *sx.Rng) sx.Tree {
 	if r.Chance(45) {
 		ct := genTopic(r, 25)
 		switch r.Intn(10) {
@@ -230,6 +250,8 @@ func canon(v interface{}) sx.Tree {
 		return sx.T(sx.L(0))
 	case bool:
 		return sx.T(sx.L(1), sx.B(x))
+	case int64:
+		return sx.T(sx.L(2), sx.L(x))
 	case json.Number:
 		if z, ok := new(big.Int).SetString(string(x), 10); ok {
 			return sx.T(sx.L(2), sx.LB(z))
@@ -363,8 +385,167 @@ func buildPayload(t sx.Tree) interface{} {
 	return badMarshaler{}
 }
 
+func producePayload(body sx.Tree) interface{} {
+	switch body.At(0).Int() {
+	case 0:
+		return &firebolt.SimpleProduceRequest{TargetTopic: string(body.At(1).ByteSlice()), MessageBytes: body.At(2).ByteSlice()}
+	case 1:
+		return customReq{t: string(body.At(1).ByteSlice()), m: body.At(2).ByteSlice()}
+	}
+	switch body.At(1).Int() {
+	case 0:
+		return "not a produce request"
+	case 1:
+		return nil
+	case 2:
+		return firebolt.SimpleProduceRequest{TargetTopic: "t", MessageBytes: []byte("x")}
+	case 3:
+		return []byte("raw")
+	case 4:
+		return firebolt.EventError{Err: errors.New("e")}
+	}
+	return 42
+}
+
+// reportPayload returns the payload of an error-report call and whether it has the executor's form.
+func reportPayload(body sx.Tree) (interface{}, bool) {
+	if body.At(0).Int() == 0 {
+		form := body.At(1).Bool()
+		p := buildPayload(body.At(3))
+		e := buildErr(body.At(4))
+		if form {
+			return firebolt.EventError{Event: &firebolt.Event{Payload: p, Created: time.Now(), Recovery: body.At(2).Bool()}, Err: e}, true
+		}
+		return firebolt.NewEventError(&firebolt.Event{Payload: p, Created: time.Now(), Recovery: body.At(2).Bool()}, e), false
+	}
+	switch body.At(1).Int() {
+	case 0:
+		return &firebolt.EventError{Err: errors.New("e")}, false
+	case 1:
+		return "not an EventError", false
+	case 2:
+		return nil, false
+	case 3:
+		return &firebolt.SimpleProduceRequest{TargetTopic: "t", MessageBytes: []byte("x")}, false
+	case 4:
+		return errors.New("bare error"), false
+	}
+	return firebolt.NewFBError("E", "m"), false
+}
+
+func recordTree(m *kafka.Message, report, form bool) sx.Tree {
+	topic := sx.T()
+	if m.TopicPartition.Topic != nil {
+		topic = sx.Str(*m.TopicPartition.Topic)
+	}
+	if report {
+		return sx.T(topic, parseReport(m.Value, form))
+	}
+	return sx.T(topic, sx.Bytes(m.Value))
+}
+
+// Inputs outside the wire format's canonical form (reachable only by the shrinker: JSON trees that are not what
+// the canonicaliser would produce, texts that are not valid UTF-8 and would be altered by encoding/json) are
+// rejected as malformed, so that a minimised replay is always a genuine witness.
+func validText(t sx.Tree) bool {
+	for _, k := range t.Kids {
+		if !k.IsLeaf || !k.Z.IsInt64() || k.Int() < 0 || k.Int() > 255 {
+			return false
+		}
+	}
+	return !t.IsLeaf && utf8.Valid(t.ByteSlice())
+}
+
+func validJSONTree(t sx.Tree) (ok bool) {
+	defer func() {
+		if recover() != nil {
+			ok = false
+		}
+	}()
+	var chk func(t sx.Tree) bool
+	chk = func(t sx.Tree) bool {
+		switch t.At(0).Int() {
+		case 3:
+			return validText(t.At(1))
+		case 4:
+			for _, k := range t.At(1).Kids {
+				if !chk(k) {
+					return false
+				}
+			}
+		case 5:
+			for _, kv := range t.At(1).Kids {
+				if !validText(kv.At(0)) || !chk(kv.At(1)) {
+					return false
+				}
+			}
+		}
+		return true
+	}
+	return chk(t) && canon(jsonValue(t)).String() == t.String()
+}
+
+func validErrk(t sx.Tree) bool {
+	switch t.At(0).Int() {
+	case 0:
+		return validText(t.At(1))
+	case 1:
+		return validText(t.At(1)) && validErrk(t.At(2))
+	case 2:
+		if !validText(t.At(1)) || !validText(t.At(2)) {
+			return false
+		}
+		if t.At(3).Len() == 1 && t.At(3).At(0).At(0).Int() == 0 {
+			return validJSONTree(t.At(3).At(0).At(1))
+		}
+	case 3:
+		return validText(t.At(1)) && validText(t.At(2))
+	}
+	return true
+}
+
+func validEreq(b sx.Tree) (ok bool) {
+	defer func() {
+		if recover() != nil {
+			ok = false
+		}
+	}()
+	if b.At(0).Int() != 0 {
+		return true
+	}
+	if p := b.At(3); p.At(0).Int() == 0 && !validJSONTree(p.At(1)) {
+		return false
+	}
+	return validErrk(b.At(4))
+}
+
+func validProdInput(in sx.Tree) (ok bool) {
+	defer func() {
+		if recover() != nil {
+			ok = false
+		}
+	}()
+	switch in.At(0).Int() {
+	case 2:
+		return validEreq(in.At(2))
+	case 3:
+		for _, c := range in.At(2).Kids {
+			if c.At(0).Int() == 2 && !validEreq(c.At(1)) {
+				return false
+			}
+		}
+	}
+	return true
+}
+
 // RunProd executes one producer / error-report case.
 func RunProd(in sx.Tree) sx.Tree {
+	if !validProdInput(in) {
+		return sx.T(sx.L(-2)) // malformed for the judge
+	}
+	if in.At(0).Int() == 3 {
+		return runProdSeq(in)
+	}
 	sp := &scriptedProducer{ch: make(chan *kafka.Message, 16)}
 	cfgTopic := string(in.At(1).ByteSlice())
 	body := in.At(2)
@@ -374,71 +555,76 @@ func RunProd(in sx.Tree) sx.Tree {
 	form := false
 	if !report {
 		kp := kafkaproducer.NewKafkaProducerV(sp, cfgTopic)
-		var payload interface{}
-		switch body.At(0).Int() {
-		case 0:
-			payload = &firebolt.SimpleProduceRequest{TargetTopic: string(body.At(1).ByteSlice()), MessageBytes: body.At(2).ByteSlice()}
-		case 1:
-			payload = customReq{t: string(body.At(1).ByteSlice()), m: body.At(2).ByteSlice()}
-		default:
-			switch body.At(1).Int() {
-			case 0:
-				payload = "not a produce request"
-			case 1:
-				payload = nil
-			case 2:
-				payload = firebolt.SimpleProduceRequest{TargetTopic: "t", MessageBytes: []byte("x")}
-			case 3:
-				payload = []byte("raw")
-			case 4:
-				payload = firebolt.EventError{Err: errors.New("e")}
-			default:
-				payload = 42
-			}
-		}
-		res, err = kp.Process(&firebolt.Event{Payload: payload, Created: time.Now()})
+		res, err = kp.Process(&firebolt.Event{Payload: producePayload(body), Created: time.Now()})
 	} else {
 		ep := kafkaproducer.NewErrorProducerV(sp, cfgTopic)
 		var payload interface{}
-		if body.At(0).Int() == 0 {
-			form = body.At(1).Bool()
-			p := buildPayload(body.At(3))
-			e := buildErr(body.At(4))
-			if form {
-				payload = firebolt.EventError{Event: &firebolt.Event{Payload: p, Created: time.Now(), Recovery: body.At(2).Bool()}, Err: e}
-			} else {
-				payload = firebolt.NewEventError(&firebolt.Event{Payload: p, Created: time.Now(), Recovery: body.At(2).Bool()}, e)
-			}
-		} else {
-			switch body.At(1).Int() {
-			case 0:
-				payload = &firebolt.EventError{Err: errors.New("e")}
-			case 1:
-				payload = "not an EventError"
-			case 2:
-				payload = nil
-			case 3:
-				payload = &firebolt.SimpleProduceRequest{TargetTopic: "t", MessageBytes: []byte("x")}
-			case 4:
-				payload = errors.New("bare error")
-			default:
-				payload = firebolt.NewFBError("E", "m")
-			}
-		}
+		payload, form = reportPayload(body)
 		res, err = ep.Process(&firebolt.Event{Payload: payload, Created: time.Now()})
 	}
 	recs := []sx.Tree{}
 	for len(sp.ch) > 0 {
-		m := <-sp.ch
-		topic := sx.T()
-		if m.TopicPartition.Topic != nil {
-			topic = sx.Str(*m.TopicPartition.Topic)
-		}
-		if report {
-			recs = append(recs, sx.T(topic, parseReport(m.Value, form)))
-		} else {
-			recs = append(recs, sx.T(topic, sx.Bytes(m.Value)))
-		}
+		recs = append(recs, recordTree(<-sp.ch, report, form))
 	}
 	return sx.T(sx.B(res == nil), sx.L(errEnum(err)), sx.T(recs...))
+}
+
+// sequence case := (3 cfg_topic ((1 preq) | (2 ereq) ...)): the calls go, in order, to ONE errorkafkaproducer instance
+// (produce requests to its embedded KafkaProducer), and the records are read from the channel only after the last
+// call.  obs := (3 (obs_1 ... obs_n)), obs_i as for a single case; record k belongs to the k-th call that returned no
+// error (records left over are attributed to the last call).
+func runProdSeq(in sx.Tree) sx.Tree {
+	calls := in.At(2).Kids
+	sp := &scriptedProducer{ch: make(chan *kafka.Message, len(calls)+8)}
+	ep := kafkaproducer.NewErrorProducerV(sp, string(in.At(1).ByteSlice()))
+	type callRes struct {
+		panicked, resNil, report, form bool
+		err                            int64
+		recs                           []sx.Tree
+	}
+	rs := make([]callRes, len(calls))
+	for i, c := range calls {
+		r := &rs[i]
+		r.report = c.At(0).Int() == 2
+		func() {
+			defer func() {
+				if recover() != nil {
+					r.panicked = true
+				}
+			}()
+			var res *firebolt.Event
+			var err error
+			if r.report {
+				var payload interface{}
+				payload, r.form = reportPayload(c.At(1))
+				res, err = ep.Process(&firebolt.Event{Payload: payload, Created: time.Now()})
+			} else {
+				res, err = ep.KafkaProducer.Process(&firebolt.Event{Payload: producePayload(c.At(1)), Created: time.Now()})
+			}
+			r.resNil, r.err = res == nil, errEnum(err)
+		}()
+	}
+	k := 0
+	for len(sp.ch) > 0 {
+		m := <-sp.ch
+		for k < len(rs) && (rs[k].panicked || rs[k].err != 0) {
+			k++
+		}
+		if k < len(rs) {
+			rs[k].recs = append(rs[k].recs, recordTree(m, rs[k].report, rs[k].form))
+			k++
+		} else if len(rs) > 0 {
+			l := &rs[len(rs)-1]
+			l.recs = append(l.recs, recordTree(m, l.report, l.form))
+		}
+	}
+	out := []sx.Tree{}
+	for _, r := range rs {
+		if r.panicked {
+			out = append(out, sx.T(sx.L(-1)))
+		} else {
+			out = append(out, sx.T(sx.B(r.resNil), sx.L(r.err), sx.T(r.recs...)))
+		}
+	}
+	return sx.T(sx.L(3), sx.T(out...))
 }
